@@ -4,6 +4,7 @@ import Driver.ConcDrv
 import Driver.FmtDrv
 import Driver.NamesDrv
 import FlexiVerif.Model.Buf
+import FlexiVerif.Model.ErrChan
 /-
   Line-protocol driver: reads cases from stdin, answers every line with one line.
 
@@ -69,6 +70,19 @@ def stepLine (st : MSt) (line : String) : MSt × String :=
           if d = 0 then (st, "bad-op") else
           let mids := (List.range (d - 1)).map (fun j => s!"inner{j + 2} x{j + 1}\r\n")
           (st, Drv.textToHex (("inner1\r\n" ++ String.join mids ++ s!"outer x{d}\r\nplain\r\n").toList))
+        | none => (st, "bad-op")
+      -- the error channel: the reports of the reference run (an openable error file), routed by the
+      -- model to the channel under test
+      | ["ERRCHANOBS", ch, evs] =>
+        let chan : Option FV.ErrChan.Channel := match ch with
+          | "stderr" => some .stdErr | "stdout" => some .stdOut | "file" => some (.file true)
+          | "badfile" => some (.file false) | "devnull" => some .devNull | _ => none
+        match chan with
+        | some chan =>
+          let evl := if evs = "-" then [] else evs.splitOn ","
+          let r := FV.ErrChan.run chan evl
+          let sh (l : List String) : String := if l.isEmpty then "-" else ",".intercalate l
+          (st, s!"err={sh r.err}|out={sh r.out}|file={sh r.file}")
         | none => (st, "bad-op")
       -- the in-memory log target (`log_to_buffer`): which records the snapshot holds afterwards
       | ["BUFLOG", max, lens] =>
